@@ -953,6 +953,37 @@ func runC20(p *Program, r *Report) {
 		})
 	}
 	c20selfjoin(p, r, "C20.selfjoin")
+	c09ctx(p, r, "C20.bounded")
+	// whoever wins casClosing closes the connection: otherwise every later Close/CloseNow only waits (15 s) and the goroutines stay
+	if cas := p.Func("Conn.casClosing"); cas != nil {
+		for _, cs := range p.CallersOf(cas) {
+			fn := cs.Fn
+			p.forAllPaths(r, "C20.cas", fn, "the winner of casClosing closes the connection", Opts{},
+				"a function that takes the closing flag (casClosing() == true) calls c.close() (directly or deferred) on every path; the flag is never taken by code that leaves the transport open", func(pa *Path) (bool, string) {
+					// the flag may have been taken on every path that calls casClosing and does not decide its result false
+					called, lost := false, false
+					for _, e := range pa.Events {
+						if e.Kind == "call" && e.Callee == "Conn.casClosing" {
+							called = true
+						}
+					}
+					for _, d := range pa.Decisions {
+						if strings.HasPrefix(d.Key, "call:Conn.casClosing@") && !d.Val {
+							lost = true
+						}
+					}
+					if !called || lost {
+						return true, ""
+					}
+					for _, e := range pa.Events {
+						if (e.Kind == "call" || e.Kind == "defer") && e.Callee == "Conn.close" {
+							return true, ""
+						}
+					}
+					return false, p.FuncName(fn) + " takes the closing flag without closing the connection"
+				})
+		}
+	}
 	if us := unresolvedDynamic(p); len(us) > 0 {
 		r.Undecide("C20: dynamic call sites not in the dispatch table (call graph incomplete): %v", us)
 	}
